@@ -450,12 +450,18 @@ class Corr:
         for t in range(self.T):
             for i in range(N):
                 for j in range(N):
+                    if new_content[t] is None:
+                        continue
                     if periodic:
-                        new_content[t][i, j] = self.content[wrap(t + i + j)][0]
+                        entry = self.content[wrap(t + i + j)]
                     elif (t + i + j) >= self.T:
+                        entry = None
+                    else:
+                        entry = self.content[t + i + j]
+                    if entry is None:
                         new_content[t] = None
                     else:
-                        new_content[t][i, j] = self.content[t + i + j][0]
+                        new_content[t][i, j] = entry[0]
 
         return Corr(new_content)
 
